@@ -803,7 +803,12 @@ def replay(path):
         print(json.dumps(doc, indent=1))
         return 0
     from malt.core import converter
-    feats = eval(rp['features'], {'Feature': converter.Feature}) if rp.get('features') not in (None, 'None') else None
+    ft = rp.get('features')
+    if ft in (None, 'None'):
+        feats = None
+    else:
+        names = re.findall(r'Feature\.(\w+)', str(ft))
+        feats = tuple(getattr(converter.Feature, n) for n in names) or None
     try:
         mod = convrun.load_module([rp['program']], rp.get('prelude', PRELUDE))
         g = convert(mod.f0, rp.get('recursive', True), feats)
